@@ -44,8 +44,8 @@ def _panics(n):
     if not isinstance(n, dict):
         return False
     if n.get("k") == "Call":
-        return (callee(n) or "").startswith("core::panicking::") or (callee(n) or "").startswith("std::panicking::") or \
-            (n.get("ty") == "!" and "panic" in (callee(n) or ""))
+        # a call of a diverging function (`-> !`): the panic machinery itself or a local `fail_*` helper wrapping it
+        return (callee(n) or "").startswith("core::panicking::") or (callee(n) or "").startswith("std::panicking::") or n.get("ty") == "!"
     if n.get("k") == "Block":
         for s_ in n["stmts"]:
             if s_["s"] == "expr" and _panics(s_["e"]):
